@@ -4,15 +4,19 @@
 //!   pmh-verif child <mode> <in.json> <out.json>
 #![allow(dead_code)]
 #[macro_use]
+mod util;
+#[macro_use]
 mod fw;
 mod child;
+mod dist;
 mod gen;
 mod pmh;
+mod sigprobe;
 mod sk;
+mod spec;
 mod oracle;
 mod props;
 mod stat;
-mod util;
 
 use fw::*;
 
@@ -32,6 +36,7 @@ fn main() {
             if args.len() < 4 {
                 usage();
             }
+            util::capture_stdout();
             let tier = match args[3].as_str() {
                 "quick" => Tier::Quick,
                 "thorough" => Tier::Thorough,
@@ -51,6 +56,7 @@ fn main() {
             if args.len() < 3 {
                 usage();
             }
+            util::capture_stdout();
             util::install_panic_hook();
             let (p, sub, case) = match read_case_file(std::path::Path::new(&args[2])) {
                 Ok(x) => x,
@@ -70,7 +76,7 @@ fn main() {
                 }
             }
             if ctx.n_violations() == 0 {
-                println!("replay of {} ({} / {}): property held", args[2], p, sub);
+                outln!("replay of {} ({} / {}): property held", args[2], p, sub);
             }
             finish(&ctx);
         }
@@ -95,7 +101,7 @@ fn finish(ctx: &Ctx) -> ! {
         std::process::exit(2);
     }
     let st = ctx.stats.lock().unwrap();
-    println!(
+    outln!(
         "OK property={} tier={} seed={} evaluations={} distinct_nontrivial={} wall_s={:.1}",
         ctx.id,
         ctx.tier.name(),
